@@ -62,6 +62,7 @@ class SummaryHistories(RuleBasedStateMachine):
         self.case = None
         self.client = None
         self.ran = False
+        self.attempted = False
         self.last_aggs = None
         self.trace = []
         self.failed = False
@@ -115,6 +116,7 @@ class SummaryHistories(RuleBasedStateMachine):
         c = copy.deepcopy(self.case)
         c["req"]["aggregates"] = aggs
         r = run_case(c, client=self.client)
+        self.attempted = True
         self.trace.append(("run", aggs))
         if r.ok:
             self.ran = True
@@ -129,9 +131,12 @@ class SummaryHistories(RuleBasedStateMachine):
 
         self.client = ModelClient()
         self.ran = False
+        self.attempted = False
         self.trace.append(("fresh_client", None))
 
-    @precondition(lambda self: not self.ran)
+    # only a client on which no run was even attempted: after a run that ended in the too-few-units error the client
+    # holds a model without draws, and the statement says nothing about a summary call in that situation
+    @precondition(lambda self: not self.ran and not self.attempted)
     @rule()
     def summary_before_run(self):
         ctx = SummaryHistories.ctx
